@@ -30,3 +30,19 @@ MANIFEST_TEXT = {
                    "A coverage statement over that space, not a proof for all inputs.",
         level_note="Trusts the reference model (self-checked against brute force) and rustc; vectors beyond ~330k bits are not explored."),
 }
+
+PROPS["C05"] = dict(
+    driver="c05", builds=["rel", "dbg"], level="model_checking",
+    rule="E-hist: breadth-first search over operation histories on the real RawVector / IntVector from several initial states (new, with_capacity, with_len at word boundaries -1/0/+1, "
+         "default, From<Vec<T>>/FromIterator<T> for the five item types). Actions take their parameters relative to the current length (push_bit, push_int at widths 1/7/63/64/exact-fill/fill+1, "
+         "pop_bit, pop_int incl. wider than the content, set_bit, set_int incl. word-straddling, resize up/down across word boundaries, clear, reserve; push/pop/set/resize/clear/reserve/pack/extend "
+         "with values wider than the item width). After every transition: return value, len/width, every bit/item, iterators, and the canonical-state oracle (== a freshly built vector, identical bytes, same count of set bits). "
+         "States are deduplicated on the real object's full representation (len, width, words); a state is non-trivial/distinct when its representation was not seen before in the same BFS.",
+    bounds={"quick": "depth 4, reduced value alphabet, 12 raw + 59 int initial states (10 widths)", "thorough": "depth 4 full alphabet + depth 5 reduced alphabet, 12 raw + 331 int initial states (all 64 widths)"},
+    assumptions=[HOOK_ASSUMPTION, "states reachable from several initial states are counted once per initial state (each BFS has its own seen-set)", "set_bit/set_int beyond len and capacity values are not part of the property and not checked"],
+)
+MANIFEST_TEXT["C05"] = dict(engine="E-hist", design_ref="DESIGN.md §4 C05",
+    technique="explicit-state breadth-first exploration of operation histories on the real vectors with a reference-model and canonical-state oracle after every transition",
+    level_text="All operation sequences up to depth 4 (5 in thorough with the reduced alphabet) from 71/343 initial states, every transition executed on the real object and compared with a Vec<bool>/Vec<u64> reference; "
+               "states deduplicated on the concrete representation so stale bits create new states and are flagged immediately.",
+    level_note="Histories longer than the bound, and value patterns outside the alphabet, are not explored.")
